@@ -61,7 +61,7 @@ CLAIMED = {
  "C04": dict(
    level="model_checking", design="§3 C04, §2.2",
    technique="stateless model checking of the real engine: exhaustive interleaving exploration (controlled scheduler, deviation bound, happens-before caching, post-state prediction) with a porcupine strict-serializability oracle over transaction-level operations",
-   text="7 scenarios of 2-3 concurrent transactions (read-modify-write with commit or rollback; read-only with repeated reads and a scan; one scenario starts from the state 'a read-write transaction is open and has written' with two read-only clients arriving) are explored over all interleavings up to 2 deviations for 2 threads and 1 for 3 threads (thorough: +1). Each transaction is one operation spanning begin..commit with its observed reads and its write set; the history, closed by a final read-only transaction, must be strictly serializable; own writes must be visible inside the transaction; read-only transactions must be repeatable and their scan must equal their reads. Sequentially, every transaction body of <=3 (4) operations over 2 keys on 3 pre-states must read and scan its own view (committed state overlaid with its buffered operations) before it ends. The scenarios also run free (no scheduler) in a -race build, 8 / 100 iterations each: a race report outside Close, a panic or a hang is a violation.",
+   text="7 scenarios of 2-3 concurrent transactions (read-modify-write with commit or rollback; read-only with repeated reads and a scan; one scenario starts from the state 'a read-write transaction is open and has written' with two read-only clients arriving) are explored over all interleavings up to 2 deviations for 2 threads and 1 for 3 threads (thorough: +1). Each transaction is one operation spanning begin..commit with its observed reads and its write set; the history, closed by a final read-only transaction, must be strictly serializable; own writes must be visible inside the transaction (point reads, the unbounded scan and, in the sequential own-view unit, every bounded scan [lo, hi) over the keys the body names); read-only transactions must be repeatable and their scan must equal their reads. Sequentially, every transaction body of <=3 (4) operations over 2 keys on 3 pre-states must read and scan its own view (committed state overlaid with its buffered operations) before it ends. The scenarios also run free (no scheduler) in a -race build, 8 / 100 iterations each: a race report outside Close, a panic or a hang is a violation.",
    note="Non-transactional writes are excluded as in the statement. SC interleavings of visible operations."),
  "C17": dict(
    level="model_checking", design="§3 C17, §2.2",
